@@ -16,7 +16,7 @@ def n(x):
 FMT = {
   "C01": lambda c: f"{n(c['designs'])} generated designs + {n(c.get('stmt_family_designs', 0))} statement-family designs, {n(c['schedules_run'])} schedules executed (5 pass groups, {n(c['linear_extensions'])} linear extensions x ff orders, shuffle-seam DFS on {n(c['seam_designs'])} designs), {n(c['states'])} all-signal comparisons; {n(c['distinct_nontrivial'])} designs order-sensitive with >= 2 schedules; extension cap {c['ext_cap']} hit on {n(c['ext_cap_hits'])} designs (reported, `exhaustive:false`)",
   "C02": lambda c: f"{n(c['designs'])} designs, {n(c['evaluations'])} recorded executions, {n(c['required_pairs'])} writer-before-reader / explicit obligations, {n(c['seam_schedules'])} seam schedules, {n(c['cyclic_rejections'])} cyclic-constraint rejections",
-  "C03": lambda c: f"{n(c['programs'])} designs translated ({n(c['expression_statements'])} expression / statement blocks, 66 hand-written statement designs with reference functions), {n(c['evaluations'])} (design, input step) comparisons of every output port; {n(c['not_translatable'])} designs refused by the backend",
+  "C03": lambda c: f"{n(c['programs'])} designs translated ({n(c['expression_statements'])} expression / statement blocks, 57 hand-written statement designs with reference functions), {n(c['evaluations'])} (design, input step) comparisons of every output port; {n(c['not_translatable'])} designs refused by the backend",
   "C04": lambda c: f"{n(c['evaluations'])} operator / constructor / fresh-result cases, all widths 1..{c['widths_covered']} on the boundary alphabet, protocol graph {n(c['states'])} states / {n(c['transitions'])} transitions closed",
   "C05": lambda c: f"{n(c['evaluations'])} slice / index / concat / ext / reduce / clog2 cases (all values of widths 1..7)",
   "C06": lambda c: f"{n(c['shapes'])} struct shapes ({n(c['shapes_with_lists'])} with list fields), {n(c['evaluations'])} (shape, value) cases, {n(c['alias_histories'])} alias histories",
